@@ -412,6 +412,45 @@ def dsk2(ctx, c):
     repo = ctx.repo
     fn, res = _stores_of(ctx, "write_dir_entry")
     where = repo.loc(fn, fn.node)
+    # a NUL in the name (cassette names are sometimes NUL padded) is stored as a blank: a first byte of 00 marks the entry as deleted, so the
+    # file would vanish from the directory while its granules stay allocated
+    from ..inline import flatten as _flw
+    wflat = _flw(repo, fn, depth=2)
+    wtxt = U(wflat)
+    # decided by folding the per-character expression where there is one
+    from ..consteval import fold as _fch, NotConst as _Nch
+    char_done = False
+    for lp_ in [n for n in ast.walk(wflat) if isinstance(n, ast.For) and isinstance(n.target, ast.Name) and re.search(r"\.name\b", U(n.iter))]:
+        stores_ = [x for x in lp_.body if isinstance(x, ast.Assign) and isinstance(x.targets[0], ast.Subscript) and U(x.targets[0].value) == "self.buffer"]
+        if len(stores_) != 1:
+            continue
+        try:
+            tbl_ = {ch: _fch(stores_[0].value, dict(ctx.env, **{lp_.target.id: ch})) for ch in ("A", "z", "\0", ".", "/", ":", "-", "_", " ", "1")}
+        except _Nch:
+            continue
+        char_done = True
+        changed = sorted(ch for ch, v_ in tbl_.items() if ch != "\0" and v_ != ord(ch))
+        if tbl_["\0"] in (0x00, 0xFF):
+            c.finding("write_dir_entry:nul", "the characters of the name are stored as they are, NUL included",
+                      "write_dir_entry stores a NUL of the name as %#04x: a name that begins with NUL gives an entry whose first byte marks it as free - the file is not listed, the next "
+                      "file reuses the slot, the granules leak" % tbl_["\0"], where)
+        else:
+            c.ok("write_dir_entry:nul", "a NUL in the name is stored as a blank", where)
+        if changed:
+            c.finding("write_dir_entry:name-characters", "the characters %s of a name are stored as something else" % " ".join(repr(x) for x in changed),
+                      "write_dir_entry replaces %s in a file name (%s): list_files drops blanks from the stored name, so the file comes back under another name than it was added with "
+                      "and --files no longer selects it" % (", ".join(repr(x) for x in changed), ", ".join("%r -> %#04x" % (x, tbl_[x]) for x in changed)), where)
+        else:
+            c.ok("write_dir_entry:name-characters", "every character but NUL is stored as itself", where)
+        break
+    if not char_done and "ord(" in wtxt and (".name" in wtxt):
+        maps_nul = re.search(r"!= 0\b|== 0\b|!= 0x00|\bor ord\(' '\)|\bor 32\b|\bor 0x20\b|replace\('\\x00'|replace\(\"\\x00\"|NUL|!= '\\x00'|== '\\x00'", wtxt) is not None
+        if maps_nul:
+            c.ok("write_dir_entry:nul", "a NUL in the name is stored as a blank", where)
+        else:
+            c.finding("write_dir_entry:nul", "the characters of the name are stored as they are, NUL included",
+                      "write_dir_entry stores ord(letter) for every character of the name: a name that begins with NUL gives an entry whose first byte is 00, which "
+                      "directory_entry_in_use and list_files read as a deleted entry - the file is not listed, the next file reuses the slot, the granules leak", where)
     # the name and extension bytes come from the file's own name and extension, padded / cut / upper-cased and nothing else:
     # a default substituted for an empty one stores a different name than the one asked for
     binds = {}
@@ -811,7 +850,24 @@ def dsk4(ctx, c):
     for t in tests:
         if isinstance(t, ast.Compare) and isinstance(t.left, ast.BinOp) and isinstance(t.left.op, ast.BitAnd):
             last_test = (try_fold(t.left.right, ctx.env), type(t.ops[0]).__name__, try_fold(t.comparators[0], ctx.env))
-    if last_test is None or None in last_test:
+    # decide the last-granule test by folding every candidate test of the function over FAT entry values
+    from ..consteval import fold as _flt, NotConst as _Nlt
+    lt_verdict = None
+    for t_ in tests:
+        names_ = sorted({x.id for x in ast.walk(t_) if isinstance(x, ast.Name)})
+        if len(names_) != 1:
+            continue
+        try:
+            tb = {v_: bool(_flt(t_, dict(ctx.env, **{names_[0]: v_}))) for v_ in (0x00, 0x21, 0x43, 0xC0, 0xC1, 0xC5, 0xC9)}
+        except _Nlt:
+            continue
+        if not tb[0x00] and not tb[0x21] and not tb[0x43] and tb[0xC1] and tb[0xC9]:
+            lt_verdict = (U(t_), tb)
+    if lt_verdict is not None:
+        c.check(lt_verdict[1][0xC0] and lt_verdict[1][0xC5], "calculate_file_length:last-test", "(e & C0) == C0", "`%s` is false for the entry $C0" % lt_verdict[0],
+                "calculate_file_length recognises the last granule by `%s`, which does not hold for $C0 (a last granule with no sector in use, what Disk BASIC leaves for a file "
+                "opened and closed without writing): the chain is followed through granule $C0 = 192, which does not exist" % lt_verdict[0], wc)
+    elif last_test is None or None in last_test:
         c.undecided("calculate_file_length:last-test", "test-not-recognised", str(last_test), wc)
     else:
         c.check(last_test == (D.FAT_LAST_MASK, "Eq", D.FAT_LAST_BASE), "calculate_file_length:last-test", "(e & C0) == C0", "last-granule test %s" % (last_test,),
@@ -822,6 +878,17 @@ def dsk4(ctx, c):
     else:
       c.check(all(m is not None and (m & 0x0F) == 0x0F and (m & 0xC0) == 0 for m in sect_masks) and sect_masks, "calculate_file_length:sector-mask", "sector count = e & 1F/3F/0F", "sector mask %s" % sect_masks,
             "calculate_file_length extracts the sector count with mask %s; it must keep the low four bits (0-9) and drop the C0 marker" % sect_masks, wc)
+    # the copy of the FAT handed to the readers has an entry for every granule
+    lfm = repo.method(CLS, "list_files")
+    for n_ in ast.walk(lfm.node):
+        if isinstance(n_, ast.Assign) and isinstance(n_.value, ast.Subscript) and U(n_.value.value) == "self.buffer" and isinstance(n_.value.slice, ast.Slice) \
+                and "FAT_OFFSET" in U(n_.value.slice):
+            lo_ = try_fold(n_.value.slice.lower, ctx.env) if n_.value.slice.lower is not None else 0
+            hi_ = try_fold(n_.value.slice.upper, ctx.env) if n_.value.slice.upper is not None else None
+            if isinstance(lo_, int) and isinstance(hi_, int):
+                c.check(lo_ == D.FAT_OFFSET and hi_ - lo_ >= D.GRANULES, "list_files:fat-copy", "the FAT copy covers granules 0..67", "the FAT copy holds %d entries from offset %d" % (hi_ - lo_, lo_),
+                        "list_files copies %d FAT entries starting at %d: the table has an entry for each of the 68 granules at %d; looking up a granule beyond the copy raises IndexError "
+                        "and the image is then taken for something other than a disk" % (hi_ - lo_, lo_, D.FAT_OFFSET), repo.loc(lfm, n_))
     # length arithmetic: full granule adds HALF_TRACK_LEN; last adds (sectors-1)*256 + bytes
     it = Interp(cf.node, consts=ctx.env)
     txt = U(cf.node)
@@ -864,9 +931,15 @@ def dsk4(ctx, c):
     af = repo.method(CLS, "add_file")
     wa = repo.loc(af, af.node)
     blank = None
+    envb = dict(ctx.env)
+    for a_ in ast.walk(af.node):
+        if isinstance(a_, ast.Assign) and isinstance(a_.targets[0], ast.Name):
+            v_ = try_fold(a_.value, envb)
+            if isinstance(v_, int) and not isinstance(v_, bool):
+                envb[a_.targets[0].id] = v_
     for n in ast.walk(af.node):
         if isinstance(n, ast.For) and isinstance(n.iter, ast.Call) and U(n.iter.func) == "range" and len(n.iter.args) == 2:
-            a, b = try_fold(n.iter.args[0], ctx.env), try_fold(n.iter.args[1], ctx.env)
+            a, b = try_fold(n.iter.args[0], envb), try_fold(n.iter.args[1], envb)
             for st in n.body:
                 if isinstance(st, ast.Assign) and isinstance(st.targets[0], ast.Subscript) and U(st.targets[0].value) == "self.buffer" and U(st.targets[0].slice) == U(n.target):
                     blank = (a, b, try_fold(st.value, ctx.env))
@@ -874,7 +947,10 @@ def dsk4(ctx, c):
         c.ok("add_file:blanking", "no blanking loop", wa, nontrivial=False)
     else:
         good = blank[0] is not None and blank[1] is not None and D.FAT_OFFSET + D.GRANULES <= blank[0] and blank[1] <= D.DIR_OFFSET and blank[0] <= blank[1]
-        c.check(good, "add_file:blanking", "blanks only FAT bytes 68..255", "blanks [%s, %s)" % (blank[0], blank[1]),
+        if blank[0] is None or blank[1] is None:
+            c.undecided("add_file:blanking", "range-not-constant", "", wa)
+        else:
+          c.check(good, "add_file:blanking", "blanks only FAT bytes 68..255", "blanks [%s, %s)" % (blank[0], blank[1]),
                 "add_file blanks buffer[%s:%s]; only the unused part of the FAT sector, [%d, %d), may be overwritten" % (blank[0], blank[1], D.FAT_OFFSET + D.GRANULES, D.DIR_OFFSET), wa)
 
 
@@ -1351,6 +1427,11 @@ def dsk8(ctx, c):
                 if len(a) >= 3:
                     need(a[0] == "%s.data" % p_file and a[1] == pre_obj and a[2] == post_obj,
                          "%s is given (%s) for a %s file; it needs the file's data, its %s and %s" % (fname, ", ".join(a), kind, pre_obj, post_obj))
+        if grans:
+            reorder = [e for e in events if e[0] == "call" and e[1] == grans and e[2] in ("sort", "reverse", "pop", "remove", "insert", "clear")]
+            if reorder:
+                need(False, "the allocation list is changed by %s.%s() between the steps that use it: the directory entry, the data and the FAT chain no longer describe the same sequence of granules"
+                     % (grans, reorder[0][2]))
         order = [e[2] for e in events if e[0] == "call" and e[1] == "self" and e[2] in ("find_empty_granule", "write_to_granules", "write_to_fat")]
         if "find_empty_granule" in order and "write_to_granules" in order:
             need(order.index("find_empty_granule") < order.index("write_to_granules"), "data is written before granules are allocated")
@@ -1720,6 +1801,12 @@ def _dsk5_reader(ctx, c):
             c.check(dec, "read_data:remaining", "remaining length decreases by what was read", "no decrement", "read_data does not reduce the remaining length by the bytes read", repo.loc(rd, multi))
     # the postamble is read at the pointer returned by read_data (right after the data): same contiguity assumption as the writer
     lf = repo.method(CLS, "list_files")
+    for n_ in ast.walk(lf.node):
+        if isinstance(n_, ast.Assign) and "post" in U(n_.targets[0]).lower() and "seek_granule" in U(n_.value) and ("length" in U(n_.value) or "len(" in U(n_.value)):
+            c.finding("list_files:trailer-position", "the trailer is looked for at first granule + header + data length",
+                      "list_files computes the position of the postamble as `%s`: that is where it would be if the file occupied one contiguous run of bytes; granules of a file are "
+                      "wherever the fill order put them (and the directory track lies between granules 33 and 34), so files of more than one granule do not list" % U(n_.value)[:80],
+                      repo.loc(lf, n_))
     if re.search(r"postamble\.read\(self\.buffer, post_pointer\)", U(lf.node)) and re.search(r"return \(?file_data, pointer\)?", t):
         c.finding("list_files:trailer", "trailer read right behind the last data byte, wherever that is",
                   "list_files reads the postamble at the position following the last data byte; when the data ends at a granule end the trailer lives in the next chain granule, "
